@@ -121,7 +121,7 @@ class Ob:
         """prop must hold on this path: check pc AND NOT prop."""
         self.queries += 1
         s = z3.Solver()
-        s.set("timeout", 60000)
+        s.set("timeout", 180000)
         s.add(*pc)
         t0 = time.time()
         if not self.witness:
@@ -1287,7 +1287,7 @@ def c32(ctx):
     n = z3.Int("n")
     MAXL = 28
 
-    PRINT_LEN = 7
+    PRINT_LEN = 5
     print_max = sum(26 ** i for i in range(1, PRINT_LEN + 1)) - 1     # last name with PRINT_LEN letters
 
     def ob_print_parse(ob):
@@ -1494,7 +1494,7 @@ def spaced_rune_obligations(ctx):
         for L in range(0, maxl + 1):
             shapes.append(("any%d" % L, L, 0))
         # k letters followed by up to two arbitrary chars: reaches the long-name region
-        for k in ([27, 28, 32, 33, 34] if ctx.tier == "quick" else list(range(26, 36)) + [63, 64, 65]):
+        for k in ([27, 28, 32, 33, 34] if ctx.tier == "quick" else list(range(26, 40))):
             shapes.append(("letters%d+2" % k, k + 2, k))
         for name, L, nletters in shapes:
             cs, pre = [], []
@@ -2075,7 +2075,7 @@ def c09(ctx):
                     continue
                 inserted, updc2 = r.keep
                 burned_map = updc2[0][0]
-                refin = Struct([nout, pad(opret, 3, False), kind, nun, pad(un_ids, 3, zero), pad(un_bals, 3, 0),
+                refin = Struct([nout, pad(opret, 4, False), kind, nun, pad(un_ids, 3, zero), pad(un_bals, 3, 0),
                                 opt(mint_id), opt(mint_amt), opt(et_id), premine,
                                 ne, pad(edicts, 2, Struct([Struct([0, 0]), 0, 0])), opt(ptr)])
                 st2 = X.State(); st2.pc = list(r.pc)
@@ -2125,12 +2125,12 @@ def c09(ctx):
 
     if ctx.tier == "quick":
         scen = [(0, 2, 1, 0, None, False, False), (1, 2, 2, 0, "open", False, False), (2, 2, 1, 1, None, False, False),
-                (2, 2, 1, 1, None, False, True), (2, 3, 1, 1, "open", False, False), (2, 2, 1, 1, None, True, False), (2, 2, 2, 1, None, False, False)]
+                (2, 2, 1, 1, None, False, True), (2, 4, 1, 1, None, False, False), (2, 2, 1, 1, None, True, False), (2, 2, 2, 1, None, False, False)]
     else:
         scen = [(0, 1, 1, 0, None, False, False), (0, 3, 2, 0, None, False, False), (1, 2, 2, 0, "open", False, False), (1, 2, 1, 0, "closed", False, False),
                 (2, 2, 0, 0, "open", False, True), (2, 2, 1, 1, None, False, False), (2, 2, 1, 1, None, False, True), (2, 3, 1, 1, "open", False, False),
                 (2, 2, 1, 1, None, True, False), (2, 2, 2, 1, None, False, False), (2, 3, 2, 1, None, False, True), (2, 2, 1, 2, None, False, False),
-                (2, 2, 1, 2, None, True, True), (2, 3, 1, 2, "open", False, False)]
+                (2, 2, 1, 2, None, True, True), (2, 3, 1, 2, "open", False, False), (2, 4, 1, 1, None, False, False), (2, 4, 1, 1, None, False, True)]
     for kind, nout, nun, ne, mint, etched, pointer in scen:
         name = "c09_alloc_k%d_o%d_in%d_e%d%s%s%s" % (kind, nout, nun, ne, "_mint" + mint if mint else "", "_etch" if etched else "", "_ptr" if pointer else "")
         guarded(ctx, name,
